@@ -163,7 +163,7 @@ def twin_is_any_entry(v) -> bool:
 # ---------------------------------------------------------------- delegating-metadata schema (C14)
 ACCEPT, REJECT, UNSPEC = "accept", "reject", "unspecified"
 _DATE_CANON = re.compile(r"[0-9]{4}-[0-9]{2}-[0-9]{2}T[0-9]{2}:[0-9]{2}:[0-9]{2}Z\Z")
-_DATE_LOOSE = re.compile(r"\s*\d{1,4}-\d{1,2}-\d{1,2}[Tt]\d{1,2}:\d{1,2}:\d{1,2}[Zz]\s*\Z")
+_DATE_LOOSE = re.compile(r"\d{1,4}-\d{1,2}-\d{1,2}[Tt]\d{1,2}:\d{1,2}:\d{1,2}[Zz]\Z")
 SUPPORTED_TYPES = ("root", "key_mgr")
 
 
@@ -255,4 +255,6 @@ def twin_schema(md):
         return REJECT
     if not all(twin_is_any_entry(v) for v in md["signatures"].values()):
         return REJECT
-    return twin_signed_part(md["signed"])
+    # names that are not keys but carry well-formed values: the statement speaks of values only -> unspecified
+    names = ACCEPT if all(twin_is_hex_key(k) for k in md["signatures"]) else UNSPEC
+    return _and(names, twin_signed_part(md["signed"]))
